@@ -53,7 +53,11 @@ def _run_cvc5(smt2, timeout_ms):
 
 
 def _work(item):
-    idx, smt2, must, use_cvc5, both = item
+    idx, smt2, must, use_cvc5, both, hinted = item
+    if hinted is not None:
+        r, t, model = _run_z3(hinted, 4000, True)
+        if r == 'sat':
+            return idx, r, t, model, 'z3'
     r, t, model = _run_z3(smt2, Z3_TIMEOUT_MS, True)
     backend = 'z3'
     if (r not in ('sat', 'unsat')) and use_cvc5:
@@ -77,7 +81,8 @@ def discharge(obs, jobs=None, cross=False):
     items = []
     for i, ob in todo:
         try:
-            items.append((i, ob.smt2(), ob.must, True, cross))
+            hinted = ob.smt2(hints=True) if ob.must in ('sat', 'refuted') else None
+            items.append((i, ob.smt2(), ob.must, True, cross, hinted))
         except Exception as e:     # noqa
             ob.status = 'unknown'
             ob.detail = 'serialisation failed: %s' % e
